@@ -357,9 +357,10 @@ def c18():
         id="C18", level="fault_enumeration", engine="tabmon+rtrsim",
         builds=[_tab_build(), _sim_build()],
         runs=[_tab_run("allocpfx", 480, 9600), _tab_run("allocspki", 160, 3200),
-              dict(name="allocsync", bin="rtrsim", config="asan", mode="allocsync", cases=T(2048, 16384), timeout=2400, chunks=64,
+              dict(name="allocsync", bin="rtrsim", config="asan", mode="allocsync", cases=T(3072, 18432), timeout=2400, chunks=64,
                    remap_props={"C03": "C18", "C08:blocked": "C18"})],
-        floors={"c18/runs_with_injected_failure": T(15000, 300000), "c18/sync/runs_with_injected_failure": T(1900, 14000),
+        floors={"c18/runs_with_injected_failure": T(15000, 300000), "c18/sync/runs_with_injected_failure": T(2800, 16000),
+                "c18/sync/table_probes_after_recovery": T(20000, 100000),
                 "c18/pfx/leak_checks": T(400, 8000), "c18/spki/leak_checks": T(100, 2000), "c18/sync/leak_checks": T(20, 300),
                 "c18/pfx/validate_hit_by_failure": T(500, 10000)},
         rule=("A counting / failing allocator is installed through the public lrtr_set_alloc_functions(); every block carries a header "
@@ -371,7 +372,12 @@ def c18():
               "synchronisation conversation (first sync with > 100 PDUs per type, delta, Cache Reset + atomic reload through shadow "
               "tables, > 129 router keys) with k spread over all its allocation requests: no crash, and the C03 exchange oracle "
               "(records unchanged or purged, other sources intact) must hold; failure-free variants with rtr_stop at the k-th "
-              "cancellation point are leak-checked. The monitors' own lookups are neither counted nor failed. Distinct by (history, k)."),
+              "cancellation point are leak-checked. Two further conversations are enumerated the same way: one whose incremental responses "
+              "fail half way (the rollback itself is made to fail at each step) and one with a cache that has no router keys until after "
+              "its first reload (the shadow key table is built without touching a key). Recovery probe: whenever the client is "
+              "ESTABLISHED after the injected failure, both tables must take and release a record. The application's own table "
+              "initialisation is kept out of the enumeration (spki_table_init cannot report failure). A client thread blocked for good "
+              "after the failure counts for C18 here. The monitors' own lookups are neither counted nor failed. Distinct by (history, k)."),
         assumptions=TAB_ASSUME + ["leaks on failure paths are outside the property (it speaks of failure-free runs)"],
     )
 
